@@ -378,14 +378,21 @@ inline int harness_main(int argc, char **argv, const char *harness, std::vector<
         std::vector<Case> recent; std::vector<std::string> lasthist; // in-process runs: the executions preceding a failure (a failure may depend on earlier calls)
         const size_t HIST = 64; size_t rpos = 0;
         auto gen = p.gen();
+        // shrinking is bounded: after the first failure at most SHRINK_EVALS further executions or SHRINK_SECONDS of wall time are spent on
+        // minimisation; beyond that every candidate counts as passing, which ends rapidcheck's shrink loop at the smallest failing case found
+        // so far (only the size of the reported counterexample depends on this budget, never the verdict)
+        const uint64_t SHRINK_EVALS = 20000; const double SHRINK_SECONDS = 20.0;
+        uint64_t shrink_n = 0; std::chrono::steady_clock::time_point t_fail;
         auto result = rc::detail::checkTestable([&] {
             Case c; c.prop = p.name; c.v = *gen;
+            if (seen_fail && (++shrink_n > SHRINK_EVALS || std::chrono::duration<double>(std::chrono::steady_clock::now() - t_fail).count() > SHRINK_SECONDS)) return;
             Ctx ctx;
             casefile_note(c);
             bool ok = ((p.forked || o.forkall) && !o.nofork) ? run_forked(p.body, c, ctx) : p.body(c, ctx);
             if (!ok && o.crash_only && !crashy(ctx.why)) { ok = true; stats().classes["value-mismatch-not-counted-here"]++; }
             if (seen_fail) { stats().shrink_evals++; progress() = progress() + 1; } else account(p, c, ctx);
             if (!ok) {
+                if (!seen_fail) t_fail = std::chrono::steady_clock::now();
                 seen_fail = true; lastfail = c; lastwhy = ctx.why; lasthist.clear();
                 for (size_t q = 0; q < recent.size(); q++) lasthist.push_back(recent[(rpos + q) % recent.size()].str()); // oldest first
             }
